@@ -8,6 +8,7 @@ package main
 // must be exactly the locations the WGSL declares (C17: stage interfaces survive translation exactly).
 
 import (
+	"github.com/gogpu/naga/ir"
 	"fmt"
 	"regexp"
 	"sort"
@@ -64,6 +65,7 @@ func cmdC17Iface(c *ctx) {
 	reGlslOut := regexp.MustCompile(`layout\(location = (\d+)\)\s*(?:flat |smooth |noperspective |centroid |sample )*out\b`)
 	reHlslLoc := regexp.MustCompile(`:\s*LOC(\d+)\b`)
 	c17ComputeBuiltins(c)
+	c17WorkgroupSizeOverride(c)
 	c17SamplerPairs(c)
 	for i := 0; i < c.n; i++ {
 		stage := []string{"vertex", "fragment"}[c.rng.Intn(2)]
@@ -291,6 +293,64 @@ func init() { commands["c17iface"] = cmdC17Iface }
 // num_workgroups (for which HLSL has no system value) through the special-constants buffer; MSL: thread_position_in_threadgroup /
 // thread_index_in_threadgroup / thread_position_in_grid / threadgroup_position_in_grid / threadgroups_per_grid; GLSL:
 // gl_LocalInvocationID / gl_LocalInvocationIndex / gl_GlobalInvocationID / gl_WorkGroupID / gl_NumWorkGroups.
+// c17WorkgroupSizeOverride: `@workgroup_size(WG, 2)` with `override WG: u32 = 4u;` — the workgroup size is part of the
+// stage interface (SPIR-V LocalSize, HLSL numthreads, GLSL local_size_x); after override resolution (default value, or a
+// supplied pipeline constant) it must be that value.
+func c17WorkgroupSizeOverride(c *ctx) {
+	reSpvLS := regexp.MustCompile(`numthreads\((\d+), (\d+), (\d+)\)`)
+	reGl := regexp.MustCompile(`local_size_x = (\d+), local_size_y = (\d+), local_size_z = (\d+)`)
+	for _, tc := range []struct {
+		supplied bool
+		val      uint32
+	}{{false, 4}, {true, 7}} {
+		src := "override WG: u32 = 4u;\n@group(0) @binding(0) var<storage, read_write> o: array<u32>;\n@compute @workgroup_size(WG, 2)\nfn cs() {\n  o[0] = WG;\n}\n"
+		src = strings.ReplaceAll(src, "\\n", "\n")
+		mod, res := frontEnd(src)
+		if mod == nil {
+			c.line("violations.txt", q("front end: @workgroup_size with an override-expression rejected: "+fmt.Sprint(res))+" "+q(src)+" "+q(""))
+			c.count("violations")
+			continue
+		}
+		consts := ir.PipelineConstants{}
+		if tc.supplied {
+			consts["WG"] = float64(tc.val)
+		}
+		clone := ir.CloneModuleForOverrides(mod)
+		if r := guard("ProcessOverrides", func() error { return ir.ProcessOverrides(clone, consts) }); r.err != "" {
+			c.line("violations.txt", q("ProcessOverrides: "+r.err)+" "+q(src)+" "+q(""))
+			c.count("violations")
+			continue
+		}
+		want := fmt.Sprintf("%d 2 1", tc.val)
+		report := func(dialect, got, text string) {
+			c.count("texts:" + dialect)
+			if got != want {
+				c.line("violations.txt", q(fmt.Sprintf("%s: workgroup size %s for @workgroup_size(WG, 2) with WG = %d (supplied=%v)", dialect, got, tc.val, tc.supplied))+" "+q(src)+" "+q(text))
+				c.count("violations")
+			}
+		}
+		if len(clone.EntryPoints) > 0 {
+			wg := clone.EntryPoints[0].Workgroup
+			report("ir", fmt.Sprintf("%d %d %d", wg[0], wg[1], wg[2]), "")
+		}
+		var ht, gt string
+		if r := guard("hlsl", func() error { t, _, e := hlsl.Compile(clone, hlsl.DefaultOptions()); ht = t; return e }); r.err == "" {
+			if m := reSpvLS.FindStringSubmatch(ht); m != nil {
+				report("hlsl", m[1]+" "+m[2]+" "+m[3], ht)
+			}
+		}
+		if r := guard("glsl", func() error {
+			t, _, e := glsl.Compile(clone, glsl.Options{LangVersion: glsl.Version450, EntryPoint: "cs"})
+			gt = t
+			return e
+		}); r.err == "" {
+			if m := reGl.FindStringSubmatch(gt); m != nil {
+				report("glsl", m[1]+" "+m[2]+" "+m[3], gt)
+			}
+		}
+	}
+}
+
 func c17ComputeBuiltins(c *ctx) {
 	type bi struct{ wgsl, ty, hlsl, msl, glsl string }
 	all := []bi{
